@@ -95,3 +95,17 @@ func (v *VerifCluster) BackupOwners(p uint64) []string {
 
 // RT returns member i's routing table (for the embedded client's "is this owner me" test).
 func (v *VerifCluster) RT(i int) *routingtable.RoutingTable { return v.cl.members[i].svc.rt }
+
+// VerifEntryCount: number of entries in the primary fragments of a DMap on this member (-1 if the DMap does not exist).
+func (s *Service) VerifEntryCount(name string) int {
+	if _, err := s.getDMap(name); err != nil {
+		return -1
+	}
+	n := 0
+	for id := uint64(0); id < s.config.PartitionCount; id++ {
+		if f, ok := s.primary.PartitionByID(id).Map().Load("dmap." + name); ok {
+			n += f.(*fragment).storage.Stats().Length
+		}
+	}
+	return n
+}
